@@ -8,8 +8,9 @@ XTCE_NS = "https://www.omg.org/spec/XTCE/20180204"
 
 
 class Spelling:
-    def __init__(self, kind="prefix", prefix="xtce", comments=0.0, pretty=True, extra_ns=True):
+    def __init__(self, kind="prefix", prefix="xtce", comments=0.0, pretty=True, extra_ns=True, uri=None):
         self.kind, self.prefix, self.comments, self.pretty, self.extra_ns = kind, prefix, comments, pretty, extra_ns
+        self.uri = uri or XTCE_NS
 
     @property
     def ns_prefix_arg(self):
@@ -19,9 +20,9 @@ class Spelling:
     def nsmap(self):
         m = {}
         if self.kind == "prefix":
-            m[self.prefix] = XTCE_NS
+            m[self.prefix] = self.uri
         elif self.kind == "default":
-            m[None] = XTCE_NS
+            m[None] = self.uri
         if self.extra_ns:
             m["xsi"] = "http://www.w3.org/2001/XMLSchema-instance"
         return m
@@ -32,7 +33,7 @@ class Writer:
         self.rng, self.sp = rng, sp
 
     def E(self, tag, attrs=None, *kids, text=None, root=False):
-        q = tag if self.sp.kind == "none" else ET.QName(XTCE_NS, tag)
+        q = tag if self.sp.kind == "none" else ET.QName(self.sp.uri, tag)
         el = ET.Element(q, nsmap=self.sp.nsmap() if root else None)
         for k, v in (attrs or {}).items():
             if v is not None:
